@@ -29,7 +29,7 @@ RULE = (
     "(CorrFunc HDF5, CorrData text, Configuration YAML write+read); creation with id column, build_trees, histogram and crosscorrelate also with progress=True; four programs on multi-node layouts {AB, AAB, ABA, ABB, ABAB, AABB} (processor names differ)} x world size {2,3|4} x max_workers {None,1,2,size} x "
     "send completion {eager, rendezvous | size-threshold} x collectives {full, minimal synchronisation}; every "
     "wildcard-receive matching the standard permits is enumerated (POE: deterministic matches first, then branch over "
-    "all matchable senders); creation on 4 ranks: complete up to 3 deviations from the default matching. Two refusal programs (oversized probe of a random generator; a given centre that attracts no object): what the single process refuses must be refused on every rank (no rank returns, none is left waiting). Oracle: no deadlock, no rank raises, no message left unreceived, every pair-count / "
+    "all matchable senders); creation on 4 ranks: complete up to 3 deviations from the default matching. Three refusal programs (oversized probe of a random generator; a given centre that attracts no object; an existing target directory without overwrite): what the single process refuses must be refused on every rank (no rank returns, none is left waiting). Oracle: no deadlock, no rank raises, no message left unreceived, every pair-count / "
     "histogram task executed exactly once, root observation == observation of the same program in an MPI-less "
     "single process. Non-trivial: an execution in which some wildcard receive had >= 2 candidate senders."
 )
